@@ -58,7 +58,11 @@ RenderVec(id, fam, tpls, entry, ctx, extra) ==
 
 Emit(v) == PrintT(ToJson(v))
 
-(* Enumeration skeleton shared by the *_Gen specifications: a two-level tree (chunk, case index) so that
+(* NOTE (TLC): a state variable must never share its name with a bound identifier used anywhere in the
+   modules it extends (i, j, k, n, s, ...): TLC's level analysis goes by name, treats every operator using
+   that identifier as state-dependent and stops caching constant definitions (measured: 100x slower).
+   State variables of the props modules are therefore named v_xxx.
+   Enumeration skeleton shared by the *_Gen specifications: a two-level tree (chunk, case index) so that
    TLC's workers share the evaluation of the cases.  Picked is the set of case indices of the tier. *)
 GenInit(lvl, i) == lvl = 0 /\ i = 0
 GenNext(lvl, i, Picked, K) ==
